@@ -1,27 +1,23 @@
 #!/bin/bash
 # usage: seedtest.sh <seed-dir (patch.diff, demo_test.go)> <check-id>...
-# 1. confirms the seed in a scratch worktree (suite passes with it, demo fails with it, demo passes without it)
-# 2. applies it to /repo, runs the given checks (quick), reverts.
-d=$1; shift
+# In a scratch worktree of /repo HEAD (never /repo itself): suite passes with the change, demo fails with it,
+# the given checks (quick) are run against the changed worktree, demo passes without the change.
+d=$(cd "$1" && pwd); shift
 export GOFLAGS=-mod=mod GOPROXY=off GOSUMDB=off GOTOOLCHAIN=local
-W=/tmp/seedcheck.$$
-git -C /repo diff --quiet || { echo "repo dirty"; exit 2; }
+W=/tmp/seedcheck.$$; O=/tmp/seedout.$$
 git -C /repo worktree add --detach $W HEAD >/dev/null 2>&1 || exit 2
-cleanup() { git -C /repo worktree remove --force $W >/dev/null 2>&1; }
+cleanup() { git -C /repo worktree remove --force $W >/dev/null 2>&1; rm -rf $O; }
 trap cleanup EXIT
 cd $W
 if ! git apply "$d/patch.diff" 2>/tmp/seedtest.err; then echo "patch does not apply: $(head -2 /tmp/seedtest.err)"; exit 3; fi
 if go build ./... >/dev/null 2>&1 && go test -vet=off -count=1 ./... >/tmp/seedtest.suite 2>&1; then echo "suite with change: PASS"; else echo "suite with change: FAIL"; grep -m3 -E '^--- FAIL|^FAIL' /tmp/seedtest.suite; fi
-demo_dir=.
-grep -q '^package mux_test\|^package mux$' "$d/demo_test.go" || demo_dir=$(grep -o 'copied to[^.]*' "$d/notes.md" | head -1)
 cp "$d/demo_test.go" ./zz_seed_demo_test.go
-race=""; grep -qi '\-race' "$d/notes.md" && race="-race"
+race=""; grep -qi '\-race' "$d/notes.md" 2>/dev/null && race="-race"
 if go test $race -vet=off -count=1 -run . . >/tmp/seedtest.demo1 2>&1; then echo "demo with change: PASS (seed not confirmed!)"; else echo "demo with change: FAIL (as intended)"; fi
-rm zz_seed_demo_test.go; git checkout -- . ; cp "$d/demo_test.go" ./zz_seed_demo_test.go
+rm zz_seed_demo_test.go
+for id in "$@"; do
+  (cd /verif && VERIF_REPO=$W VERIF_OUT=$O ./verif $id quick 2>&1 | grep -E '^VIOLATION|clause=|^C[0-9]+ quick|HARNESS|KNOWN' | head -7)
+done
+git checkout -- . ; cp "$d/demo_test.go" ./zz_seed_demo_test.go
 if go test $race -vet=off -count=1 -run . . >/tmp/seedtest.demo2 2>&1; then echo "demo without change: PASS"; else echo "demo without change: FAIL (seed not confirmed!)"; tail -5 /tmp/seedtest.demo2; fi
 rm zz_seed_demo_test.go
-cd /repo && git apply "$d/patch.diff" || exit 3
-for id in "$@"; do
-  (cd /verif && ./verif $id quick 2>&1 | grep -E '^VIOLATION|clause=|^C[0-9]+ quick|HARNESS|KNOWN' | head -7)
-done
-git -C /repo checkout -- .
